@@ -49,7 +49,7 @@ def build(case):
         if case.get("low3"):
             # keep the low-nibble pixels below 8 so that the known '& 7' defect cannot apply
             pix = [[(v & 7) if x % 2 else v for x, v in enumerate(row)] for row in pix]
-        data, esc = M.enc_rat(pix, pal, rng, preset)
+        data, esc = M.enc_rat(pix, pal, rng, preset, escape=case.get("escape"))
         return fmt, data, M.expected_rgb(pix, pal), pix, pal
     if fmt == "cm3":
         two = case.get("two", False)
@@ -74,7 +74,7 @@ def build(case):
 
 
 def run_case(case):
-    obs = {"key": "%(fmt)s|%(kind)s|%(preset)s|%(seed)d" % case, "counters": {"decodes": 1}, "viols": [],
+    obs = {"key": "%(fmt)s|%(kind)s|%(preset)s|%(seed)d" % case + ("|esc%d" % case["escape"] if case.get("escape") is not None else ""), "counters": {"decodes": 1}, "viols": [],
            "sets": {"layouts": ["%s/%s" % (case["fmt"], case["preset"])]}}
     if case["fmt"] == "unsquash":
         return run_unsquash(case, obs)
@@ -235,5 +235,7 @@ def cases(tier, seed):
                 if not q or kind in ("vrepeat", "flatrows", "runs"):
                     yield dict(base, fmt="cm3", two=True, pat=(n % 2 == 0))
     yield {"fmt": "rat", "kind": "runs", "preset": "escape-in-data", "seed": seed + 5, "low3": True}
+    for esc in (0, 1, 10, 13, 26, 0x24, 0x2E, 0x5C, 0x7C, 0x7F, 0x80, 0xFF):
+        yield {"fmt": "rat", "kind": "runs", "preset": "random", "seed": seed + 7 + esc, "low3": True, "escape": esc}
     for i in range(3 if q else 30):
         yield {"fmt": "unsquash", "kind": "-", "preset": "-", "seed": seed * 31 + i}
